@@ -147,8 +147,12 @@ func genProgram(rt *rapid.T, allowFail bool) Case {
 	// one range value iterated by every thread: a global, and a local of main that is passed to every spawn
 	useRange := rapid.Bool().Draw(rt, "sharedRange")
 	rangeLen := rapid.IntRange(3, 40).Draw(rt, "rangeLen")
+	// read-only values of every kind behind globals, read through MEMBERS, indices and fields by every thread (no
+	// thread writes them, main does not touch them before the spawns: the threads' accesses are the first ones)
+	useROValues := rapid.IntRange(0, 2).Draw(rt, "readOnlyValues") > 0
 	var b strings.Builder
 	b.WriteString("let cnt = 0;\nlet ro = 41;\nlet shared = [0];\n")
+	b.WriteString("let rol = [3, 1, 2];\nlet ros = \"abc\";\nlet roo = new { a: 1, l: [4, 5], s: \"xy\" };\nlet rop = ?5;\nlet rof = 2.5;\nlet ron = [[1], [2, 3]];\n")
 	fmt.Fprintf(&b, "let rg = 0..%d;\n", rangeLen)
 	fmt.Fprintf(&b, "fn w(id: int, tag: str, n: int, rp: range) {\n    let k = 0;\n    while k < n {\n        k += 1;\n")
 	if useCounter {
@@ -164,6 +168,11 @@ func genProgram(rt *rapid.T, allowFail bool) Case {
 		fmt.Fprintf(&b, "        if id == %d && k == %d { let z = 0; println(1 / z); }\n", failing, (iters+1)/2)
 	}
 	b.WriteString("        println(\"T\" + id.to_string() + \":\" + tag + \":\" + k.to_string());\n    }\n")
+	if useROValues {
+		b.WriteString("    let v1 = rol.len() + rol[0] + rol.last().unwrap() + roo.a + roo.l.len() + roo.l[1] + rop.unwrap() + ros.len() + roo.s.len() + ron[1].len() + ron.len();\n")
+		b.WriteString("    let v2 = rol.contains(2) && ros.contains(\"b\") && rop.is_some() && rol == [3, 1, 2] && roo.l.contains(4);\n")
+		b.WriteString("    println(\"V\" + id.to_string() + \":\" + v1.to_string() + \":\" + v2.to_string() + \":\" + rol.to_string() + ros.to_upper() + rof.to_string() + rol.join(\"-\") + ron.to_string());\n")
+	}
 	if useRange {
 		b.WriteString("    let sg = 0;\n    let ng = 0;\n    for q in rg { sg += q; ng += 1; }\n    let sp = 0;\n    for q in rp { sp += q; }\n")
 		b.WriteString("    println(\"R\" + id.to_string() + \":\" + sg.to_string() + \":\" + ng.to_string() + \":\" + sp.to_string());\n")
@@ -193,6 +202,10 @@ func genProgram(rt *rapid.T, allowFail bool) Case {
 		}
 		for k := 1; k <= iters; k++ {
 			expect = append(expect, fmt.Sprintf("T%d:%s:%d\n", i, tag, k))
+		}
+		if useROValues {
+			pk.Class("read-only-values")
+			expect = append(expect, fmt.Sprintf("V%d:30:true:[3, 1, 2]ABC2.53-1-2[[1], [2, 3]]\n", i))
 		}
 		if useRange {
 			pk.Class("shared-range")
